@@ -148,3 +148,7 @@ MUTANTS += [
  {"id": "probe-vec-insert-at-computed-index", "kind": "break", "edits": [("src/plist.rs", "                    lines.push((start, idx));", "                    lines.insert(lines.len() + start, (start, idx));")], "expect": ["PANIC@plist::Plist::from_bytes", "insert"]},
  {"id": "probe-to-digit-radix-from-input", "kind": "break", "edits": [("src/pkgname.rs", "            Some((_, v)) => v.parse::<i64>().ok().or(Some(0)),", "            Some((_, v)) => v.chars().next().and_then(|c| c.to_digit(v.len() as u32)).map(i64::from).or_else(|| v.parse::<i64>().ok()).or(Some(0)),")], "expect": ["PANIC@pkgname::PkgName::new"]},
 ]
+MUTANTS += [
+ {"id": "enumerated-filtered-fields-benign", "kind": "benign", "edits": [{"patch": "/verif/benign/h7-distinfo-2/patch.diff"}]},
+ {"id": "enumerated-fields-filter-dropped", "kind": "break", "edits": [{"patch": "/verif/benign/h7-distinfo-2/patch.diff"}, ("src/distinfo.rs", ".filter(|s| !s.is_empty())", "")], "expect": ["PANIC@distinfo::Line::from_bytes"]},
+]
